@@ -329,6 +329,13 @@ impl<Ix: IndexType + Send + Sync> Machine for M<Ix> {
     fn check(&self, s: &St<Ix>) -> Result<(), StepErr> {
         self.battery(s)
     }
+    fn has_check_new(&self) -> bool {
+        true
+    }
+    fn check_new(&self, s: &St<Ix>) -> Result<(), StepErr> {
+        let na = self.node_args(s);
+        on_ref!(s, g => { crate::multi_iter_battery!(g, Ix, &na) })
+    }
     fn ops(&self, s: &St<Ix>) -> Vec<Op> {
         let m = &s.m;
         let na = self.node_args(s);
